@@ -342,7 +342,10 @@ class TaggedEnv:
     """Class based environment; every context carries the env tag (a string feature)."""
 
     def __init__(self, tag, n, n_actions=3, fail_at=None, extra=False, params_raise=False, interrupt_at=None, ctx_list=False, mod_rng=False,
-                 nested_run=False):
+                 nested_run=False, reward_obj=None, ctx_shift=0):
+        self.ctx_shift = ctx_shift     # numeric context features live on another range (environments that differ in their statistics)
+        # rewards handed over as a reward OBJECT the caller built (with a default for actions it does not list / a non-default value)
+        self.reward_obj = reward_obj
         self.tag, self.n, self.n_actions, self.fail_at, self.extra, self.params_raise = tag, n, n_actions, fail_at, extra, params_raise
         # a transient fault: the first read that reaches item `interrupt_at` is hit by a Ctrl-C (KeyboardInterrupt, a BaseException)
         self.interrupt_at, self.interrupted = interrupt_at, False
@@ -368,6 +371,8 @@ class TaggedEnv:
                 self.interrupted = True
                 raise KeyboardInterrupt()
             ctx = (self.tag, i % 5, (i * 7 % 11) / 11)
+            if getattr(self, "ctx_shift", 0):
+                ctx = (self.tag, (i % 5) * (1 + self.ctx_shift) + 3 * self.ctx_shift, (i * 7 % 11) / 11 - self.ctx_shift)
             if self.mod_rng:
                 import coba.random
                 ctx = ctx + (round(coba.random.random(), 4),)
@@ -375,6 +380,14 @@ class TaggedEnv:
                 ctx = list(ctx)
             acts = list(range(self.n_actions))
             rwds = [round(((i + a * 3) % 7) / 7, 5) for a in acts]
+            if getattr(self, "reward_obj", None):
+                from coba.primitives import DiscreteReward, BinaryReward
+                if self.reward_obj == "discrete_default":
+                    rwds = DiscreteReward(acts[:-1], rwds[:-1], default=-1.0)
+                elif self.reward_obj == "discrete_map":
+                    rwds = DiscreteReward({a: r for a, r in zip(acts[1:], rwds[1:])}, default=0.25)
+                else:
+                    rwds = BinaryReward(acts[i % len(acts)], 2.0)
             if self.extra:
                 yield SimulatedInteraction(ctx, acts, rwds, step=i)
             else:
